@@ -181,9 +181,12 @@ package state
 //@ func (*StateContext).GetEvents
 //@   trusted
 //@   modifies nothing
+// (C02) EmitError discards every event emitted so far: the error event is the only one left.
 //@ func (*StateContext).EmitError
-//@   trusted
-//@   modifies nothing
+//@   prop C02
+//@   requires sc != nil && sc.block != nil && sc.txn != nil
+//@   ensures[only-the-error-event] len(sc.events) == 1 && sc.events[0].Type == 1 && sc.events[0].TxHash == sc.txn.Hash && sc.events[0].BlockNumber == sc.block.Round
+//@   modifies sc.events
 //@ func (*StateContext).GetMissingNodeKeys
 //@   trusted
 //@   modifies nothing
